@@ -51,6 +51,25 @@ pub fn invariants<L: Language, N: Analysis<L>>(eg: &EGraph<L, N>, handles: &[App
     Ok(cmp)
 }
 
+pub fn run_case(c: &Mixed, obs: &mut Obs) -> Result<(), String> {
+    run(c, obs)
+}
+
+pub fn stage_name(l: LangId) -> &'static str {
+    match l {
+        LangId::Core => "ops-core",
+        LangId::Lambda => "ops-lambda",
+        LangId::Arith => "ops-arith",
+        LangId::Arith2 => "ops-arith2",
+        LangId::Fgh => "ops-fgh",
+        LangId::VarL => "ops-var",
+        LangId::Sdql => "ops-sdql",
+        LangId::ArrayLang => "ops-array",
+        LangId::Rise => "ops-rise",
+        LangId::Fp => "ops-fp",
+    }
+}
+
 fn run(c: &Mixed, obs: &mut Obs) -> Result<(), String> {
     crate::with_lang!(c.lang, L => run_l::<L>(c, obs))
 }
